@@ -60,8 +60,19 @@ def generate(rng, tier, n):
         if not (multi[1] or multi[2]):
             continue
         named = random_named(rng, t)
+        sub = rng.random() < 0.12
+        if sub:
+            # some weights far below the normal range: the imported probabilities are subnormal (still positive), and
+            # thresholds of that size must remove exactly what does not exceed them
+            for pl_ in named:
+                for _, pairs in pl_:
+                    if len(pairs) >= 2 and rng.random() < 0.7:
+                        pairs[rng.randrange(len(pairs))][1] = f2b(rng.choice([4e-310, 1e-312, 5e-324, 3e-309]) * rng.choice([1, 2, 3]))
         rows = entries_after_import(named[0], multi[1]) + entries_after_import(named[1], multi[2])
-        for h in thresholds(rng, rows, tier):
+        ths = thresholds(rng, rows, tier)
+        if sub:
+            ths = ths[:4] + [5e-324, 1e-310, 2.2250738585072014e-308, 4e-310, 1e-311]
+        for h in ths:
             cb = CaseBuilder(cid, t, {"stats": st, "thresh": h, "named": named})
             src = cb.import_(named, fast=True)
             cb.named(src)
